@@ -556,12 +556,20 @@ func readSeqContext3(p *parser.Parser, subtablePos int64) (Subtable, error) {
 		return nil, err
 	}
 
+	total := 6 + 2*glyphCount + 4*len(actions)
 	cov := make([]coverage.Set, glyphCount)
 	for i, offset := range coverageOffsets {
+		if total > 0xFFFF {
+			return nil, &parser.InvalidFontError{
+				SubSystem: "sfnt/opentype/gtab",
+				Reason:    "SeqContext3 too large",
+			}
+		}
 		cov[i], err = coverage.ReadSet(p, subtablePos+int64(offset))
 		if err != nil {
 			return nil, err
 		}
+		total += cov[i].ToTable().EncodeLen()
 	}
 
 	res := &SeqContext3{
@@ -1384,28 +1392,49 @@ func readChainedSeqContext3(p *parser.Parser, subtablePos int64) (Subtable, erro
 		return nil, err
 	}
 
+	total := 10 + 4*len(actions)
+	total += 2 * len(backtrackCoverageOffsets)
+	total += 2 * len(inputCoverageOffsets)
+	total += 2 * len(lookaheadCoverageOffsets)
+	errTooLarge := &parser.InvalidFontError{
+		SubSystem: "sfnt/opentype/gtab",
+		Reason:    "ChainedSeqContext3 too large",
+	}
+
 	backtrackCov := make([]coverage.Set, len(backtrackCoverageOffsets))
 	for i, offset := range backtrackCoverageOffsets {
+		if total > 0xFFFF {
+			return nil, errTooLarge
+		}
 		backtrackCov[i], err = coverage.ReadSet(p, subtablePos+int64(offset))
 		if err != nil {
 			return nil, err
 		}
+		total += backtrackCov[i].ToTable().EncodeLen()
 	}
 
 	inputCov := make([]coverage.Set, len(inputCoverageOffsets))
 	for i, offset := range inputCoverageOffsets {
+		if total > 0xFFFF {
+			return nil, errTooLarge
+		}
 		inputCov[i], err = coverage.ReadSet(p, subtablePos+int64(offset))
 		if err != nil {
 			return nil, err
 		}
+		total += inputCov[i].ToTable().EncodeLen()
 	}
 
 	lookaheadCov := make([]coverage.Set, len(lookaheadCoverageOffsets))
 	for i, offset := range lookaheadCoverageOffsets {
+		if total > 0xFFFF {
+			return nil, errTooLarge
+		}
 		lookaheadCov[i], err = coverage.ReadSet(p, subtablePos+int64(offset))
 		if err != nil {
 			return nil, err
 		}
+		total += lookaheadCov[i].ToTable().EncodeLen()
 	}
 
 	res := &ChainedSeqContext3{
